@@ -11,6 +11,8 @@ import (
 	"io"
 	"math/rand"
 	"sort"
+	"sync"
+	"sync/atomic"
 
 	"github.com/relab/hotstuff"
 	"github.com/relab/hotstuff/internal/proto/clientpb"
@@ -83,6 +85,56 @@ func drain(g *twins.Generator, tab *viewTable, limit int) (out [][]int, drained 
 		return out, true, nil
 	}
 	return out, false, nil
+}
+
+// drainShared: several workers pull from one generator at the same time (what `twins run --concurrency N` does); the scenarios
+// are gathered per worker and named afterwards.
+func drainShared(g *twins.Generator, tab *viewTable, workers, limit int) (out [][]int, drained bool, err error) {
+	got := make([][]twins.Scenario, workers)
+	errs := make([]error, workers)
+	var wg sync.WaitGroup
+	var taken atomic.Int64
+	start := make(chan struct{})
+	for w := 0; w < workers; w++ {
+		wg.Add(1)
+		go func(w int) {
+			defer wg.Done()
+			defer func() {
+				if r := recover(); r != nil {
+					errs[w] = fmt.Errorf("panic: %v", r)
+				}
+			}()
+			<-start
+			for taken.Add(1) <= int64(limit) {
+				s, e := g.NextScenario()
+				if errors.Is(e, io.EOF) {
+					return
+				}
+				if e != nil {
+					errs[w] = e
+					return
+				}
+				got[w] = append(got[w], s)
+			}
+		}(w)
+	}
+	close(start)
+	wg.Wait()
+	for _, e := range errs {
+		if e != nil {
+			return nil, false, e
+		}
+	}
+	for _, l := range got {
+		for _, s := range l {
+			ids := make([]int, len(s))
+			for i, v := range s {
+				ids[i] = tab.id(v)
+			}
+			out = append(out, ids)
+		}
+	}
+	return out, g.Remaining() == 0, nil
 }
 
 func c18(args []string) error {
@@ -160,6 +212,15 @@ func c18(args []string) error {
 							}
 							o.emit(obj{"kind": "shuffle", "n": n, "t": t, "k": k, "v": v, "seed": fmt.Sprint(sd), "yielded": ya, "yielded2": yb,
 								"unshuffled": y1, "drained": da && drained})
+						}
+						// one generator shared by several workers: together they get exactly the scenarios a single caller gets
+						if announced > 1 && announced <= int64(*limit) && drained {
+							gs := twins.NewGenerator(hx.Quiet{}, st)
+							ys, ds, err := drainShared(gs, &tab, 2+rng.Intn(7), *limit)
+							if err != nil {
+								return err
+							}
+							o.emit(obj{"kind": "shared", "n": n, "t": t, "k": k, "v": v, "yielded": ys, "unshuffled": y1, "drained": ds})
 						}
 						// JSON round trip of (a sample of) the scenarios
 						if v <= 2 {
